@@ -95,6 +95,11 @@ def chk_carriers(case, note):
             p = judge(r, code, "%s(%s)" % (name, msg))
             if p:
                 return p
+            if (head ^ code) & 48 == 0:   # the same frame held in a str subclass (numpy.str_, a user class, one with its own __str__)
+                for tname, m2 in variants.str_variants(msg):
+                    r2 = call(fn, m2)
+                    if not variants.same_outcome(r, r2):
+                        return "%s on a %s holding %s -> %r, on the plain str -> %r" % (name, tname, msg, r2, r)
             outs.append(r[1])
     if len(set(map(repr, outs))) != 1:
         return "altitude of code %s depends on bits outside the field: %r" % (format(code, "013b"), outs)
